@@ -101,6 +101,9 @@ func init() {
 				}
 			}
 			jobs = append(jobs, concJob("reload‖InvalidateAll/"+ex, ref, []string{"set 1", "adv 50"}, [][]string{{"load 1 val"}, {"invall"}}, or, "native", pb, false, 8, budget))
+			// a manual Refresh of a fresh entry overtaken by InvalidateAll
+			jobs = append(jobs, concJob("Refresh‖InvalidateAll/"+ex, ref, []string{"set 1"}, [][]string{{"refresh 1 val"}, {"invall"}}, or, "native", pb, false, 8, budget, "writes-during-flight"))
+			jobs = append(jobs, concJob("BulkRefresh‖InvalidateAll/"+ex, ref, []string{"set 1", "set 2"}, [][]string{{"bulkrefresh 1,2 full"}, {"invall"}}, or, "native", pb, false, 8, budget, "writes-during-flight"))
 			jobs = append(jobs, concJob("missLoad‖Set;Invalidate/"+ex, plain, nil, [][]string{{"load 1 val"}, {"set 1", "inv 1"}}, or, "native", pb, false, 8, budget))
 		}
 		return jobs
